@@ -67,14 +67,13 @@ func (its *jsonArray) deleteLocal(
 	ts *model.Timestamp,
 ) ([]*model.Timestamp, []jsonType) {
 	targets, timedTypes, _ := its.listSnapshot.deleteLocal(pos, numOfNodes, ts)
-	for _, v := range targets {
-		if jt, ok := its.findJSONType(v); ok {
-			its.addToCemetery(jt)
-		}
-	}
+	// targets are the order timestamps of the nodes, whereas NodeMap is keyed by the create timestamps, which differ
+	// once an element was updated. The deleted jsonTypes are the timedTypes, as they are in deleteRemote.
 	var jsonTypes []jsonType
 	for _, t := range timedTypes {
-		jsonTypes = append(jsonTypes, t.(jsonType))
+		jt := t.(jsonType)
+		jsonTypes = append(jsonTypes, jt)
+		its.addToCemetery(jt)
 	}
 	return targets, jsonTypes
 }
